@@ -29,7 +29,7 @@ func init() {
 var c11Kinds = []string{"C15", "C15", "C20", "C20", "C19", "C09", "C10", "C08", "C03", "C06", "C14", "C05", "C02", "C12", "C04"}
 
 // signatures of the sub-workloads that are statements about isolation between instances
-var c11Relevant = []string{"variable-flow", "scenario/metadata", "metadata-leak", "metadata", "next-rows", "next-elements", "scenario/next-rows", "duplicate-sample-id", "duplicate-ammo-id", "CRASH", "gun/", "samples", "scenario/message", "message"}
+var c11Relevant = []string{"variable-flow", "scenario/metadata", "metadata-leak", "metadata", "next-rows", "next-elements", "scenario/next-rows", "duplicate-sample-id", "duplicate-ammo-id", "CRASH", "panic-in-call", "gun/", "samples", "scenario/message", "message"}
 
 func runC11(r *R) {
 	kind := c11Kinds[r.W.Draw(len(c11Kinds))]
